@@ -30,6 +30,12 @@
 (* on"); the invariant TimerWakes says that this never blocks time for     *)
 (* good: a request at its deadline is always pollable.                     *)
 (*                                                                          *)
+(* Redirect dimension: what the caller issues may be a chain of 1..3 inner  *)
+(* calls (tower-http FollowRedirect sits INSIDE the timeout layer in        *)
+(* client/builder.rs); the deadline counts from the original issue.  That   *)
+(* dimension is independent of the pool stage of a single inner call and is *)
+(* specified in TimeoutChain.tla (as-built variant TimeoutInsideRedirect).  *)
+(*                                                                          *)
 (* AsBuiltT selects deviations used to demonstrate that the properties     *)
 (* below are not vacuous (none of them is in the current tree):            *)
 (*   TimerFirst     the Sleep is polled before the inner future            *)
